@@ -44,8 +44,8 @@ def units(tier):
     from spec import msm
     us.append(lemma_unit("msm.fold_lemmas", msm.fold_lemmas))
     # socket-backed streams: SocketWrapper refines the stream contract (C11)
-    for q in ("_recv", "read", "readline", "__init__"):
-        us += func_units(f"pyrtcm.socketwrapper.SocketWrapper.{q}", tier, only=lambda i: i != "chunked")
+    for q in ("_recv", "read", "readline", "__init__", "dechunk"):  # incl. chunked transfer encoding (C12): same stream contract
+        us += func_units(f"pyrtcm.socketwrapper.SocketWrapper.{q}", tier)
     return us
 
 
